@@ -359,7 +359,8 @@ def selftest(ctx, traces, kd):
     cfg = t_cfg(ctx, kd)
     ls = []
     for name in ("verify", "mime", "ids", "req", "cdn", "extra"):
-        part = lib.read_lines(traces[name])[:1500]
+        # the whole MIME trace: the events of the remaining listed deviation (FX07f) sit beyond its first 1500 lines
+        part = lib.read_lines(traces[name])[:(20000 if name == "mime" else 1500)]
         while part and not lib.is_new(part[-1]):
             part.pop()
         ls += part[:-1]
